@@ -7,7 +7,11 @@ REPO = os.environ.get("VERIF_REPO", "/repo")
 COQ = os.path.join(VERIF, "coq")
 OCAML = os.path.join(VERIF, "ocaml")
 CACHE = os.path.join(VERIF, ".cache")
-GOENV = dict(os.environ, GOFLAGS="-mod=mod", GOPROXY="off", GOSUMDB="off", GOTOOLCHAIN="local",
+# All harness families are linked into one binary; a few test packages of the repository declare the same
+# extension numbers (e.g. cmd/protoc-gen-go/testdata/extensions/proto3 and internal/testprotos/test3 both
+# extend MessageOptions with 1001).  The documented escape hatch keeps the *global* registries from panicking
+# at init; local registries (the subject of C33) never consult it.
+GOENV = dict(os.environ, GOLANG_PROTOBUF_REGISTRATION_CONFLICT="ignore", GOFLAGS="-mod=mod", GOPROXY="off", GOSUMDB="off", GOTOOLCHAIN="local",
              GOCACHE=os.environ.get("VERIF_GOCACHE", os.path.join(CACHE, "go-build")), CGO_ENABLED=os.environ.get("CGO_ENABLED", "0"))
 
 def sh(cmd, cwd=None, env=None, timeout=None, check=False, capture=True):
